@@ -8,7 +8,8 @@ package main
 //
 // Types are written as the type terms of /verif/spec (FoTypeExpr / FoInfer):
 // ["var",n] ["base",n] ["unit"] ["slice",t] ["tuple",[..]] ["func",[args],ret] ["named",n,[targs]]
-// and ["fa",rec,field] for an unresolved field access (not modelled, such rounds are skipped).
+// and ["fa",rec,field] for an unresolved field access.  "recs" lists the record instances that occur in
+// the line with their field types: [{"rt": ["named",n,[targs]], "fields": [[name,type],...]}, ...].
 
 import (
 	"encoding/json"
@@ -41,6 +42,7 @@ func verifTypeTerm(t FType) any {
 	case FType_FParamd:
 		return []any{"named", v.Value.Name, verifTypeTerms(v.Value.Targs)}
 	case FType_FRecord:
+		verifNoteRecord(v.Value)
 		return []any{"named", v.Value.Name, verifTypeTerms(v.Value.Targs)}
 	case FType_FUnion:
 		return []any{"named", v.Value.Name, verifTypeTerms(v.Value.Targs)}
@@ -51,6 +53,35 @@ func verifTypeTerm(t FType) any {
 	default:
 		return []any{"base", FTypeToGo(t)}
 	}
+}
+
+// the record instances met while writing one line, with their field types (g_recInfoDic is read directly)
+var verifRecs map[string]any
+var verifRecBusy map[string]bool
+
+func verifNoteRecord(rt RecordType) {
+	key := rtToKey(rt)
+	if verifRecs == nil || verifRecBusy[key] {
+		return
+	}
+	if _, ok := verifRecs[key]; ok {
+		return
+	}
+	ri, ok := g_recInfoDic.Fdict[key]
+	if !ok {
+		return
+	}
+	verifRecBusy[key] = true // (record types may be recursive)
+	fields := []any{}
+	for _, f := range ri.Fields {
+		fields = append(fields, []any{f.Name, verifTypeTerm(f.Ftype)})
+	}
+	delete(verifRecBusy, key)
+	targs := []any{}
+	for _, e := range rt.Targs {
+		targs = append(targs, verifTypeTerm(e))
+	}
+	verifRecs[key] = map[string]any{"rt": []any{"named", rt.Name, targs}, "fields": fields}
 }
 
 func verifTypeTerms(ts []FType) []any {
@@ -72,6 +103,8 @@ func verifTraceRound(res Resolver, rels []UniRel) {
 		return
 	}
 	// (the maps are read directly: dict.Keys would count as an enumeration call of the pkg/dict hook)
+	verifRecs = map[string]any{}
+	verifRecBusy = map[string]bool{}
 	names := []string{}
 	for k := range res.eid.Fdict {
 		names = append(names, k)
@@ -91,6 +124,16 @@ func verifTraceRound(res Resolver, rels []UniRel) {
 	for _, r := range rels {
 		rs = append(rs, map[string]any{"src": r.SrcV, "dest": verifTypeTerm(r.Dest)})
 	}
-	b, _ := json.Marshal(map[string]any{"eid": eid, "rels": rs})
+	rkeys := []string{}
+	for k := range verifRecs {
+		rkeys = append(rkeys, k)
+	}
+	sort.Strings(rkeys)
+	recs := []any{}
+	for _, k := range rkeys {
+		recs = append(recs, verifRecs[k])
+	}
+	verifRecs = nil
+	b, _ := json.Marshal(map[string]any{"eid": eid, "rels": rs, "recs": recs})
 	verifResLog.Write(append(b, '\n'))
 }
